@@ -5,7 +5,7 @@ run the demonstration with and without the patch) and records the outcome in
 /verif/seeded/<prop>-<mutant>/meta.json."""
 import glob, json, os, re
 for log in glob.glob("/tmp/confirm_wt*_*.log"):
-    m = re.match(r"/tmp/confirm_wt2?_(C\d+)_(.+)\.log", log)
+    m = re.match(r"/tmp/confirm_wt\d?_(C\d+)_(.+)\.log", log)
     if not m:
         continue
     d = "/verif/seeded/%s-%s" % (m.group(1), m.group(2))
